@@ -235,6 +235,7 @@ func plainArg(f reflect.Value) any {
 }
 
 type rtScenario struct {
+	zero   bool // every value left zero
 	typ    string
 	form   int
 	rows   int
@@ -272,7 +273,9 @@ func runRoundTrip(rg *rng, sc rtScenario) (res rtResult) {
 	for i := 0; i < sc.rows; i++ {
 		p := reflect.New(e.t)
 		allocEmbedded(p.Elem())
-		f.fill(p.Elem(), 0)
+		if !sc.zero {
+			f.fill(p.Elem(), 0)
+		}
 		allocEmbedded(p.Elem())
 		vals = append(vals, p)
 	}
@@ -644,6 +647,14 @@ func hasDeepPtr(t reflect.Type) bool {
 	return false
 }
 
+// fixed scenarios that run first: zero values of every omitempty shape
+var sqliteCorpus = []rtScenario{
+	{zero: true, typ: "AutoID", form: 0, rows: 1},
+	{zero: true, typ: "Omit", form: 0, rows: 1},
+	{zero: true, typ: "Person", form: 1, rows: 2},
+	{zero: true, typ: "PtrFields", form: 0, rows: 1, read: 1},
+}
+
 type sqliteStats struct {
 	Cases      int            `json:"cases"`
 	Types      map[string]int `json:"types"`
@@ -672,6 +683,9 @@ func cmdSqlite(args []string) int {
 	nviol := 0
 	for i := 0; i < *n; i++ {
 		sc := rtScenario{typ: r.pick(sqliteStructs), form: r.intn(4), rows: 1 + r.intn(4), update: r.chance(1, 4), del: r.chance(1, 5), read: r.intn(4)}
+		if i < len(sqliteCorpus) {
+			sc = sqliteCorpus[i] // fixed scenarios first
+		}
 		res := runRoundTrip(r.fork(), sc)
 		st.Cases++
 		st.Types[sc.typ]++
